@@ -119,6 +119,7 @@ StepOK(r) ==
            [] ev.a = "TagDone"       -> \E p \in Picks : TagDone(p)
            [] ev.a = "MergeCompute"  -> \E f \in DOMAIN files' : MergeCompute(f)
            [] ev.a = "MergeDone"     -> MergeDone
+           [] ev.a = "MergeFail"     -> MergeFail
            [] ev.a = "ConvCompute"   -> ConvCompute
            [] ev.a = "ConvDone"      -> \E p \in Picks : ConvDone(p)
            [] ev.a = "AddTag"        -> IF r.res = "ok" THEN \E p \in Picks : AddTag(ev.name, DefOf(ev.def), Opt(ev, "color", ""), p)
@@ -333,6 +334,8 @@ Props ==
             /\ Chk(SettingsKept(r), r, "C12.SettingsKept")
             /\ Chk(CacheKept(r), r, "C12.CacheKept")
             /\ ChkI(StreamsKept(r), r, "C12.StreamsKept", IF Reordered(r) THEN "reordered" ELSE "")
+            \* ... and the id counter is behind every stream that is served (marking, tagging and the next import rely on it)
+            /\ Chk(\A e \in vis : e[1] < nextID /\ e[1] \in allS, r, "C12.IdCounterKept")
             /\ (indexes = (IF HasField(r, "order") THEN r.order ELSE <<>>)) \/ Say("nonconf", r, "restart-order")
        /\ r.last => Chk(Settled, r, "C12.Converges")
        /\ (r.last /\ DOMAIN truth = DOMAIN tags) => Chk(NeverStaleFor(tags, vis, truth), r, "C12.ConvergesCorrect")
